@@ -358,6 +358,12 @@ func runInPackage(pkgName, body string, timeout time.Duration) (string, string, 
 		return "", "", err
 	}
 	defer os.RemoveAll(tmp)
+	extraImports := ""
+	for _, ln := range strings.Split(body, "\n") {
+		if strings.HasPrefix(ln, "//import ") {
+			extraImports += fmt.Sprintf("\t%q\n", strings.TrimPrefix(ln, "//import "))
+		}
+	}
 	src := fmt.Sprintf(`package %s
 
 import (
@@ -367,7 +373,7 @@ import (
 	"os"
 	"reflect"
 	goruntime "runtime"
-)
+`+extraImports+`)
 
 var _ = math.Pi
 %s
